@@ -4,6 +4,15 @@ CONSTANTS
   SmallVals <- SmallValsQuick
   RealAxes <- RealAxesQuickW
   RealMaps <- RealMapsQuick
+  GenLevel = 1
+  GenFroms <- GenFromsQuick
+  GenTos <- GenTosQuick
+  GenAxes <- GenAxesQuick
+  RealAxes2 <- RealAxes2Quick
+  RealMaps2 <- RealMaps2Quick
+  LayAxes <- LayAxesQuick
+  LayMaps <- LayMapsQuick
+  Layouts <- LayoutsQuick
 SPECIFICATION Spec
-INVARIANTS DesignOK RealOK EmitCase EmitStat
+INVARIANTS DesignOK RealOK LayoutOK EmitCase EmitStat
 CHECK_DEADLOCK FALSE
